@@ -180,7 +180,8 @@ impl Holder {
         // issuer jwt contains cnf claim then Key Binding JWT is required
         let issuer_claims_part = get_jwt_part(self.sd_jwt.as_str(), JWTPart::Claims)?;
         let issuer_jwt_claims = decode_claims_no_verification(issuer_claims_part.as_str())?;
-        if issuer_jwt_claims.get("cnf").is_some()
+        // "cnf": null names no key: like the verifier, treat such an SD-JWT as not bound
+        if !issuer_jwt_claims["cnf"].is_null()
             && (self.key.is_none() || self.algorithm.is_none() || self.aud.is_none())
         {
             return Err(Error::KeyBindingJWTRequired);
@@ -211,7 +212,7 @@ impl Holder {
         );
         presentation.push('~');
 
-        if issuer_jwt_claims.get("cnf").is_some() {
+        if !issuer_jwt_claims["cnf"].is_null() {
             // build kb-jwt
             let sd_alg: HashAlgorithm = declared_hash_alg(&issuer_jwt_claims)?;
             let nonce = generate_nonce(32);
